@@ -96,7 +96,7 @@ WellFormedCall(c) ==
        [] op = "CallPreserved" -> CanCallPreserved(c, Ev.i)
        [] op = "AddSuccess" -> Ev.a \in DOMAIN acts /\ ~acts[Ev.a].fin /\ Ev.f \notin acts[Ev.a].succ
        [] op = "Spawn" -> ~born[Ev.c2]
-       [] op = "AddDests" -> ToSet(Ev.S) # {} /\ ToSet(Ev.S) \cap Range(dests) = {}
+       [] op = "AddDests" -> ToSet(Ev.S) \cap Range(dests) = {}
        [] op = "RemoveDest" -> Ev.d \in Range(dests)
        [] op = "AddGlobal" -> <<Ev.f, Ev.v>> \notin gf
        [] op = "Register" -> Ev.k \notin reg
